@@ -364,6 +364,9 @@ class QLCParser(object):
             # change the aliased header for each entry in alias2
             for a in self._alias2[name]:
                 self._header[a] = newIdx
+            # every spelling the alias table knows (upper case included), as at load time
+            for a in [a for a, n in self._alias.items() if n == name]:
+                self._header[a] = newIdx
 
             self.header[name] = self._header[name]
             # add the entry to the columns! XXX
